@@ -112,6 +112,13 @@ def copy_protocol_is_deep(chk, rule: str) -> None:
                 chk.ob(rule, f, not shared, f'{c.name}.{name} returns {_norm(v) if v is not None else "None"}: '
                        + ('the "copy" is the object itself -- every deep copy that is supposed to detach a snapshot stops here' if shared else 'a newly built object'),
                        node=r, kind=f'copy-protocol:{c.name}.{name}')
+            if name == '__deepcopy__':
+                # ... and what it holds is copied too: a __deepcopy__ that wraps the SAME items in a new container is a shallow copy under a deep name (the mapping may be
+                # immutable, the lists and dicts in it are not)
+                deep = any(isinstance(x, _ast.Call) and _norm(x.func).split('.')[-1] in ('deepcopy', '__deepcopy__') for x in _ast.walk(f.node))
+                chk.ob(rule, f, deep, f'{c.name}.__deepcopy__ deep-copies what the object holds' + ('' if deep else
+                       ': it does not -- the copy shares every value with the original; a checkpoint kept in memory changes when the live process mutates an input in place'),
+                       kind=f'deepcopy-copies-contents:{c.name}')
     # ... and a copy has the CLASS of what was copied: a class that has subclasses in the package and rebuilds itself under its own name (``return Frozendict, (...)``)
     # turns every subclass instance into a base instance at the first deepcopy / pickle -- a save/load round trip (the nested input namespaces lose attribute access)
     for c in chk.prog.all_classes():
